@@ -141,6 +141,28 @@ end HMap
 /-- a string-keyed map whose contents do not matter to the translated code (Params, context data) -/
 abbrev KV := List (Bytes × Bytes)
 
+/-- values stored in the context data map by rux itself -/
+inductive DV
+  | str (b : Bytes)
+  | strs (l : List Bytes)
+  | pv (p : Panic)
+  | handler
+  deriving DecidableEq, Repr
+
+class ToDV (α : Type) where
+  toDV : α → DV
+
+instance : ToDV Bytes := ⟨DV.str⟩
+instance : ToDV (List Bytes) := ⟨DV.strs⟩
+instance : ToDV Panic := ⟨DV.pv⟩
+
+/-- the context data map (`map[string]any`) -/
+abbrev Data := List (Bytes × DV)
+
+/-- `c.Set(key, val)`: creates the map when it is nil -/
+def dataSet (d : Option Data) (k : Bytes) (v : DV) : Option Data :=
+  some ((k, v) :: ((d.getD []).filter (fun x => x.1 != k)))
+
 /-- what `Router.QuickMatch` calls, over an abstract router state `σ` (the route cache may change when a
     dynamic route is matched), abstract routes `ρ` and parameter maps `π` -/
 structure QMEnv (σ ρ π : Type) where
@@ -189,6 +211,30 @@ structure AEnv (σ ρ : Type) where
   setRegular : σ → Bytes → List ρ → σ
   getIrregular : σ → Bytes → List ρ × Bool
   setIrregular : σ → Bytes → List ρ → σ
+
+/-- what `Router.handleHTTPRequest` works with: `κ` is the context record; the chain run and the hooks return
+    the new context and, when they panic, the panic value -/
+structure HEnv (σ ρ η κ : Type) where
+  urlPath : Option Nat → Bytes
+  escapedPath : Option Nat → Bytes
+  method : Option Nat → Bytes
+  /-- `r.QuickMatch(method, path)`: state, route, params, allowed methods, panic -/
+  quickMatch : σ → Bytes → Bytes → σ × Option ρ × Option KV × List Bytes × Option Panic
+  routeName : Option ρ → Bytes
+  routeHandlers : Option ρ → List η
+  routeHandler : Option ρ → Option η
+  noAllowed : σ → List η
+  noRoute : σ → List η
+  globalHandlers : σ → List η
+  default405 : List η
+  default404 : List η
+  /-- `r.OnPanic` / `r.OnError` (nil or set) -/
+  onPanicH : σ → Option η
+  onErrorH : σ → Option η
+  /-- `ctx.Next()` on the chain that `SetHandlers` installed -/
+  next : σ → κ → List η → σ × κ × Option Panic
+  onError : σ → κ → σ × κ × Option Panic
+  onPanic : σ → κ → σ × κ × Option Panic
 
 end GoRt
 end Rux
